@@ -483,7 +483,7 @@ func c12Seams(a *acc) {
 func (c12) Describe(tier string) fw.Description {
 	return fw.Description{
 		Level: "model_checking",
-		Rule: "exhaustive product: (a) `x OP lit` for 8 operators x 12 literals x 40 typed values (every Go integer width, values beyond 2^53, float32/64 incl. NaN/Inf/-0, strings, bools, NULL, missing, slices, maps) through condition.NewExprCondition(text).Evaluate versus the parenthesised text (which misses every shortcut regex); (b) flat && / || chains of two comparisons (thorough: three) over 4 operators x 5 literals per side x 15x15 typed value pairs; (c) WHERE through EmitSync, HAVING, TRIGGER WHEN and OVER-WHEN with the predicate versus its parenthesised form; literals with blanks, line breaks and backslashes; chains mixing && and ||; several WHEN predicates in one query that differ only in letter case, blanks or one character; a case = (predicate,row); predicates that compile in neither form are skipped and counted; non-trivial = both forms compiled and were compared",
+		Rule: "exhaustive product: (a) `x OP lit` for 8 operators x 12 literals x 40 typed values (every Go integer width, values beyond 2^53, float32/64 incl. NaN/Inf/-0, strings, bools, NULL, missing, slices, maps) through condition.NewExprCondition(text).Evaluate versus the parenthesised text (which misses every shortcut regex); (b) flat && / || chains of two comparisons (thorough: three) over 4 operators x 5 literals per side x 15x15 typed value pairs; (c) WHERE through EmitSync, HAVING, TRIGGER WHEN and OVER-WHEN with the predicate versus its parenthesised form; literals with blanks, line breaks and backslashes; chains mixing && and ||; several WHEN predicates in one query that differ only in letter case, blanks or one character; HAVING over nine keyword-bearing alias spellings against the neutral alias; TRIGGER WHEN last_value(t) = <literal> for eleven literals with foreign quotes, operators and keywords against a reference; a case = (predicate,row); predicates that compile in neither form are skipped and counted; non-trivial = both forms compiled and were compared",
 		Bounds:      map[string]any{"values": len(c12Values), "ops": c12Ops, "num_literals": c12NumLits, "string_literals": c12StrLits},
 		Assumptions: []string{"the parenthesised form is the general evaluator's decision for the same predicate (it cannot match the shortcut regexes, which reject parentheses)", "float64/int64 values other than the listed boundary values are not covered"},
 	}
